@@ -34,6 +34,7 @@ def request(rng, close=False, big=False):
         hs.append(('Connection', rng.choice(['close', 'Close'])))
         if rng.random() < 0.3: hs.insert(0, ('X-Scrub', '1'))          # the echo application's Scrub fang then removes `Connection` from the request after the handler
     elif rng.random() < 0.1: hs.append(('Connection', 'keep-alive'))
+    if rng.random() < 0.12: hs.insert(rng.randrange(len(hs) + 1), ('X-Res-Conn', rng.choice(['keep-alive', 'keep-alive', 'close', 'Keep-Alive, Upgrade'])))          # the Scrub fang then writes this Connection field on the response
     head = f'{m} {path}{q} HTTP/1.1\r\n' + ''.join(f'{k}: {v}\r\n' for k, v in hs) + '\r\n'
     return head.encode(), body
 
